@@ -373,6 +373,17 @@ THOROUGH_EXTRA = {
     "C19": ["remove_shape_n3", "eq_map_n[23]", "eq_set_n2", "rebuild2", "collect2"],
     "C20": [],
 }
+# instances that run in no quick tier and have not been validated on the unchanged tree yet are
+# optional: an inconclusive result (timeout, memory) is reported in the evidence, it does not fail the run.
+# VALIDATED lists thorough-only instances that were run to completion on the unchanged tree.
+VALIDATED = set()
+try:
+    VALIDATED = set(json.load(open(os.path.join(ROOT, "validated_thorough.json"))))
+except Exception:
+    pass
+for x in H:
+    if not x["quick_for"] and x["name"] not in VALIDATED:
+        x["optional"] = True
 for x in H:
     x["thorough_for"] = list(x["quick_for"])
     for p in x["props"]:
